@@ -38,7 +38,6 @@ structure Stats where
   errors : Nat := 0
   deriving Repr, Inhabited, DecidableEq
 
-def nanosPerSec : Int := 1000000000
 
 /-- `IndexEntry::metadata_from`, time part, as the code was before the repair of D3:
 `mtime.as_second()` and `mtime.subsec_nanosecond().try_into::<u32>().unwrap()`.  jiff truncates
@@ -53,14 +52,6 @@ def mtimeToIndexTruncating (tNs : Int) : Option (Int × Nat) :=
 fraction is never negative and the conversion to `u32` cannot fail. -/
 def mtimeToIndex (tNs : Int) : Option (Int × Nat) :=
   some (tNs.fdiv nanosPerSec, (tNs.fmod nanosPerSec).toNat)
-
-/-- `IndexEntry::mtime()` as nanoseconds since the epoch: `Timestamp::new(mtime, nanos as i32)`.
-`none` = `try_into::<i32>().unwrap()` or the range `expect` panics. -/
-def entryTimeNs (sec : Int) (nanos : Nat) : Option Int :=
-  if nanos ≥ 2147483648 then none
-  else if nanos > 999999999 then none
-  else if sec < -377705023201 ∨ sec > 253402207200 then none
-  else some (sec * nanosPerSec + nanos)
 
 /-- `IndexEntry::metadata_from`: everything but the addresses.  `none` = panic (see `mtimeToIndex`). -/
 def metadataFrom (o : BackupOpts) (s : SrcEntry) : Option IndexEntry :=
